@@ -1,21 +1,21 @@
 // corr-c06: every use of a grouping is an independent, faithful, locally scoped copy.
 //
-//  (i)   model = Go: the whole resolver pipeline against the Lean model (drv_res) on grouping-heavy
-//        module sets, base variant and a variant in which one or two instances are changed by an
-//        augment and by deviations of every kind; projection {kind, dir, rpc, cfg, mand, def,
-//        units, key, la, type, ns}.
-//  (ii)  reference expansion (Go-side, in the crash-isolated worker): every `uses` statement binds
-//        to the grouping the generator's own reading of the scoping rules names (yang.FindGrouping
-//        through the AST against generator knowledge); the tree of every module equals the
-//        generator's inlined expansion (names, kinds, nesting, defaults, list attributes, key,
-//        mandatory, config, resolved type kind and identity base); the subtree under every using
-//        node is a faithful copy of ToEntry(grouping) reached through the AST.
-//  (iii) aliasing: no *Entry, *ListAttr, *RPCEntry object and no Default backing array is reachable
-//        twice from the module trees, submodule trees and cached grouping entries; instances not
-//        touched by the mutation, and all grouping entries, are identical in the base run and in
-//        the mutated run; changing one instance directly through the exported fields leaves every
-//        independent instance and every grouping entry unchanged; a module loaded afterwards that
-//        uses a grouping once more gets a faithful copy.
+//	(i)   model = Go: the whole resolver pipeline against the Lean model (drv_res) on grouping-heavy
+//	      module sets, base variant and a variant in which one or two instances are changed by an
+//	      augment and by deviations of every kind; projection {kind, dir, rpc, cfg, mand, def,
+//	      units, key, la, type, ns}.
+//	(ii)  reference expansion (Go-side, in the crash-isolated worker): every `uses` statement binds
+//	      to the grouping the generator's own reading of the scoping rules names (yang.FindGrouping
+//	      through the AST against generator knowledge); the tree of every module equals the
+//	      generator's inlined expansion (names, kinds, nesting, defaults, list attributes, key,
+//	      mandatory, config, resolved type kind and identity base); the subtree under every using
+//	      node is a faithful copy of ToEntry(grouping) reached through the AST.
+//	(iii) aliasing: no *Entry, *ListAttr, *RPCEntry object and no Default backing array is reachable
+//	      twice from the module trees, submodule trees and cached grouping entries; instances not
+//	      touched by the mutation, and all grouping entries, are identical in the base run and in
+//	      the mutated run; changing one instance directly through the exported fields leaves every
+//	      independent instance and every grouping entry unchanged; a module loaded afterwards that
+//	      uses a grouping once more gets a faithful copy.
 //
 // Any failure of (ii) or (iii) is a "spec" disagreement with verdict "violates".
 package main
@@ -646,12 +646,11 @@ func main() {
 		return
 	}
 	res := lib.NewResult("C06", f)
-	n := 1300
+	n := 5000
 	if f.Thorough() {
-		n = 60000
+		n = 150000
 	}
 	cfg := gen.C06Default()
-	var cases []rescorr.Case
 	type meta struct {
 		variant   string
 		sites     int
@@ -659,96 +658,109 @@ func main() {
 		untouched int
 		c         *gen.C06Case
 	}
-	var metas []meta
 	siteKinds := map[string]int64{}
 	mutKinds := map[string]int64{}
 	var maxNest int
-	for i := 0; i < n; i++ {
-		gc := gen.C06Generate(f.Rand(i), cfg)
-		byG := map[string]int{}
-		for _, s := range gc.Sites {
-			byG[s.GLoc]++
+	distinct := lib.NewDistinct()
+	var clean, cleanMut, withErr, outside, skipped, sitesChecked, untouchedChecked, total int64
+	const batch = 4000
+	for lo := 0; lo < n; lo += batch {
+		hi := lo + batch
+		if hi > n {
+			hi = n
 		}
-		multi := 0
-		for _, c := range byG {
-			if c >= 2 {
-				multi++
-			}
-		}
-		for _, u := range gc.Uses {
-			siteKinds[u.Site]++
-		}
-		if gc.MaxNest > maxNest {
-			maxNest = gc.MaxNest
-		}
-		kb, _ := json.Marshal(know{Variant: "base", Uses: gc.Uses, Sites: gc.Sites, Expect: gc.Expect, Late: gc.Late})
-		cases = append(cases, rescorr.Case{Names: gc.Names, Texts: gc.Texts, Extra: map[string]string{"c06": string(kb)}})
-		metas = append(metas, meta{"base", len(gc.Sites), multi, 0, gc})
-		if gc.MutTexts != nil {
-			unt := 0
+		var cases []rescorr.Case
+		var metas []meta
+		for i := lo; i < hi; i++ {
+			gc := gen.C06Generate(f.Rand(i), cfg)
+			byG := map[string]int{}
 			for _, s := range gc.Sites {
-				if !s.Touched {
-					unt++
+				byG[s.GLoc]++
+			}
+			multi := 0
+			for _, c := range byG {
+				if c >= 2 {
+					multi++
 				}
 			}
-			for _, k := range gc.MutKinds {
-				mutKinds[k]++
+			for _, u := range gc.Uses {
+				siteKinds[u.Site]++
 			}
-			km, _ := json.Marshal(know{Variant: "mut", Uses: gc.Uses, Sites: gc.Sites, BaseNames: gc.Names, BaseTexts: gc.Texts, Late: gc.Late})
-			cases = append(cases, rescorr.Case{Names: gc.MutNames, Texts: gc.MutTexts, Extra: map[string]string{"c06": string(km)}})
-			metas = append(metas, meta{"mut", len(gc.Sites), multi, unt, gc})
+			if gc.MaxNest > maxNest {
+				maxNest = gc.MaxNest
+			}
+			kb, _ := json.Marshal(know{Variant: "base", Uses: gc.Uses, Sites: gc.Sites, Expect: gc.Expect, Late: gc.Late})
+			cases = append(cases, rescorr.Case{Names: gc.Names, Texts: gc.Texts, Extra: map[string]string{"c06": string(kb)}})
+			metas = append(metas, meta{"base", len(gc.Sites), multi, 0, gc})
+			if gc.MutTexts != nil {
+				unt := 0
+				for _, s := range gc.Sites {
+					if !s.Touched {
+						unt++
+					}
+				}
+				for _, k := range gc.MutKinds {
+					mutKinds[k]++
+				}
+				km, _ := json.Marshal(know{Variant: "mut", Uses: gc.Uses, Sites: gc.Sites, BaseNames: gc.Names, BaseTexts: gc.Texts, Late: gc.Late})
+				cases = append(cases, rescorr.Case{Names: gc.MutNames, Texts: gc.MutTexts, Extra: map[string]string{"c06": string(km)}})
+				metas = append(metas, meta{"mut", len(gc.Sites), multi, unt, gc})
+			}
+		}
+		total += int64(len(cases))
+		outs := rescorr.RunAll(cases, f)
+		for i, o := range outs {
+			m := metas[i]
+			switch {
+			case o.Crashed:
+				res.AddDisagreement(lib.Disagreement{Kind: "crash", Input: o.Case.Texts, Go: o.CrashMsg, SpecVerdict: "violates",
+					What: "goyang crashed or hung: " + firstLine(o.CrashMsg), Replay: o.Case})
+				continue
+			case o.Skipped != "":
+				skipped++
+				res.AddDisagreement(lib.Disagreement{Kind: "spec", Input: o.Case.Texts, Go: o.Go.ParseErr, SpecVerdict: "violates",
+					What: "a generated module was rejected by Modules.Parse: " + o.Go.ParseErr, Replay: o.Case})
+				continue
+			case o.Outside != "":
+				outside++
+				continue
+			}
+			if len(o.Go.Findings) > 0 {
+				res.AddDisagreement(lib.Disagreement{Kind: "spec", Input: o.Case.Texts, Go: o.Go.Findings, SpecVerdict: "violates",
+					What: "grouping oracle (" + m.variant + " variant): " + o.Go.Findings[0], Replay: o.Case})
+			}
+			g := lib.Project(o.Go.Dump, keys, true)
+			md := lib.Project(o.Model, keys, true)
+			if d := rescorr.Diff(g, md); d != "" {
+				res.AddDisagreement(lib.Disagreement{Kind: "correspondence", Input: o.Case.Texts, Go: g, Model: md, SpecVerdict: "",
+					What: "resolver differs from the model (" + m.variant + " variant): " + d, Replay: o.Case})
+			}
+			if rescorr.HasErrors(o.Go.Dump) {
+				withErr++
+				if !m.c.Faulty {
+					res.AddDisagreement(lib.Disagreement{Kind: "spec", Input: o.Case.Texts, Go: o.Go.Dump, SpecVerdict: "violates",
+						What: "a set without deliberate faults does not process cleanly (" + m.variant + " variant): " + o.Go.Dump[0], Replay: o.Case})
+				}
+				continue
+			}
+			if m.variant == "base" {
+				clean++
+			} else {
+				cleanMut++
+				untouchedChecked += int64(m.untouched)
+			}
+			sitesChecked += int64(m.sites)
+			if m.multi > 0 && distinct.Add(strings.Join(o.Case.Texts, "\x00")) && len(res.Samples) < 6 && i%(len(outs)/3+1) < 2 && lo == 0 {
+				res.AddSample(map[string]any{"variant": m.variant, "files": o.Case.Names, "text": strings.Join(o.Case.Texts, "\n"),
+					"instances": m.sites, "groupings_with_2+_instances": m.multi, "applied": m.c.MutKinds})
+			}
+		}
+		if n, _ := res.Distribution["disagreements_total"].(int); n > 200 {
+			res.Notes = append(res.Notes, "stopped early: more than 200 disagreements")
+			break
 		}
 	}
-	outs := rescorr.RunAll(cases, f)
-	distinct := lib.NewDistinct()
-	var clean, cleanMut, withErr, outside, skipped, sitesChecked, untouchedChecked int64
-	for i, o := range outs {
-		m := metas[i]
-		switch {
-		case o.Crashed:
-			res.AddDisagreement(lib.Disagreement{Kind: "crash", Input: o.Case.Texts, Go: o.CrashMsg, SpecVerdict: "violates",
-				What: "goyang crashed or hung: " + firstLine(o.CrashMsg), Replay: o.Case})
-			continue
-		case o.Skipped != "":
-			skipped++
-			res.AddDisagreement(lib.Disagreement{Kind: "spec", Input: o.Case.Texts, Go: o.Go.ParseErr, SpecVerdict: "violates",
-				What: "a generated module was rejected by Modules.Parse: " + o.Go.ParseErr, Replay: o.Case})
-			continue
-		case o.Outside != "":
-			outside++
-			continue
-		}
-		if len(o.Go.Findings) > 0 {
-			res.AddDisagreement(lib.Disagreement{Kind: "spec", Input: o.Case.Texts, Go: o.Go.Findings, SpecVerdict: "violates",
-				What: "grouping oracle (" + m.variant + " variant): " + o.Go.Findings[0], Replay: o.Case})
-		}
-		g := lib.Project(o.Go.Dump, keys, true)
-		md := lib.Project(o.Model, keys, true)
-		if d := rescorr.Diff(g, md); d != "" {
-			res.AddDisagreement(lib.Disagreement{Kind: "correspondence", Input: o.Case.Texts, Go: g, Model: md, SpecVerdict: "",
-				What: "resolver differs from the model (" + m.variant + " variant): " + d, Replay: o.Case})
-		}
-		if rescorr.HasErrors(o.Go.Dump) {
-			withErr++
-			if !m.c.Faulty {
-				res.AddDisagreement(lib.Disagreement{Kind: "spec", Input: o.Case.Texts, Go: o.Go.Dump, SpecVerdict: "violates",
-					What: "a set without deliberate faults does not process cleanly (" + m.variant + " variant): " + o.Go.Dump[0], Replay: o.Case})
-			}
-			continue
-		}
-		if m.variant == "base" {
-			clean++
-		} else {
-			cleanMut++
-			untouchedChecked += int64(m.untouched)
-		}
-		sitesChecked += int64(m.sites)
-		if m.multi > 0 && distinct.Add(strings.Join(o.Case.Texts, "\x00")) && len(res.Samples) < 6 && i%(len(outs)/6+1) < 2 {
-			res.AddSample(map[string]any{"variant": m.variant, "files": o.Case.Names, "text": strings.Join(o.Case.Texts, "\n"),
-				"instances": m.sites, "groupings_with_2+_instances": m.multi, "applied": m.c.MutKinds})
-		}
-	}
-	res.Evaluations = int64(len(cases))
+	res.Evaluations = total
 	res.DistinctNontrivial = distinct.Len()
 	res.Rule = "seeded grouping-heavy module sets (harness/gen/c06.go: 1-3 modules, 0-3 submodules each with include chains, groupings at " +
 		"module level, in submodules, in containers/lists/operations/notifications and inside groupings, tiny name pools so that shadowing is " +
